@@ -291,7 +291,7 @@ class FuzzyWeightedUnion(SameArrayShapeMixin, Command):
     output = params.DataParameter()
 
     def execute(self, **kwargs):
-        arrays = [c.result for c in kwargs["InFieldNames"]]
+        arrays = [make_masked(c.result) for c in kwargs["InFieldNames"]]
         weights = kwargs["Weights"]
 
         if len(arrays) != len(weights):
